@@ -445,6 +445,18 @@ func (x *aprRun) timely(wr *aprWrite) (timely bool, ok bool) {
 	return false, x.expire(wr, true)
 }
 
+// anotherTimedOut: has the timeout of another write of this history already fired (staggered deadlines)?
+func (x *aprRun) anotherTimedOut(wr *aprWrite) bool {
+	x.w.mu.Lock()
+	defer x.w.mu.Unlock()
+	for _, o := range x.w.order {
+		if o != wr && o.timeoutAt != 0 && o.t0.Before(wr.t0) {
+			return true
+		}
+	}
+	return false
+}
+
 func aprErr(approve bool) model.ErrorType {
 	if approve {
 		return model.ErrorType{}
@@ -565,6 +577,9 @@ func (x *aprRun) exec(op string) bool {
 			kind := "verdict:late"
 			if timely {
 				kind = "verdict:intime"
+				if x.anotherTimedOut(wr) {
+					x.res.evals = append(x.res.evals, "intime-after-the-timeout-of-another-write")
+				}
 			}
 			return x.compare(op, kind, x.observe(wr), fmt.Sprintf("lookup %d %d %d", id, p, c), fmt.Sprintf("commit %d %d %d", id, p, h.B2i(approve)))
 		}
@@ -648,6 +663,9 @@ func (x *aprRun) exec(op string) bool {
 		}
 		x.checkData(wr.p, before, wr)
 		kind := "commit:intime"
+		if intime && lk.timely && x.anotherTimedOut(wr) {
+			x.res.evals = append(x.res.evals, "intime-after-the-timeout-of-another-write")
+		}
 		if raceWith != "" {
 			kind = "commit:raced-" + raceWith
 		} else if !intime {
@@ -660,6 +678,17 @@ func (x *aprRun) exec(op string) bool {
 			return true
 		}
 		return x.expire(wr, false)
+	case "wait":
+		// staggers the arrival of writes, so that one write's timeout falls inside another's approval window
+		// (what the verdicts that follow are - in time or late - is still decided by the clock, not by this op)
+		ms := n(1)
+		if ms < 1 || ms > 95 {
+			return true
+		}
+		x.res.executed = append(x.res.executed, fmt.Sprintf("wait %d", ms))
+		x.res.evals = append(x.res.evals, "wait")
+		time.Sleep(time.Duration(ms) * time.Millisecond)
+		return true
 	case "settle":
 		// "exactly one outcome" can only be judged once every write's timeout instant has passed: a write resolved by
 		// a verdict must not receive the timeout's result on top. (Automatic at the end of a history, not recorded.)
@@ -998,6 +1027,61 @@ func genAprHistory(rng *rand.Rand) []string {
 	return ops
 }
 
+// genAprStaggered: writes arrive 40..80 ms apart, so that their deadlines are staggered: each write gets some of its
+// verdicts at once and the rest after the timeout of the write before it has fired (but - if the clock allows - before
+// its own). A write's outcome must not depend on the timeout of another write of the same or of another peer.
+func genAprStaggered(rng *rand.Rand) []string {
+	nCb, nPeers := 1+rng.Intn(3), 1+rng.Intn(2)
+	if rng.Intn(3) > 0 && nCb == 1 {
+		nCb = 2
+	}
+	ops := []string{fmt.Sprintf("cfg %d %d", nCb, nPeers)}
+	nW := 2 + rng.Intn(2)
+	pApprove := 75 + rng.Intn(25)
+	id := 0
+	type wv struct {
+		p, c  int
+		later []string // verdict ops delivered after the previous write's timeout
+	}
+	var ws []wv
+	for i := 0; i < nW; i++ {
+		w := wv{p: rng.Intn(nPeers), c: 11 + i}
+		if i > 0 {
+			ops = append(ops, fmt.Sprintf("wait %d", 40+rng.Intn(41)))
+		}
+		ops = append(ops, fmt.Sprintf("write %d %d %d", w.p, w.c, rng.Intn(2)))
+		var early []string
+		for _, cb := range rng.Perm(nCb) {
+			x := rng.Intn(100)
+			if x >= pApprove+(100-pApprove)/2 {
+				continue // silent
+			}
+			a := h.B2i(x < pApprove)
+			var v []string
+			if rng.Intn(3) == 0 {
+				id++
+				v = []string{fmt.Sprintf("look %d %d %d %d %d", id, w.p, w.c, cb, a), fmt.Sprintf("commit %d", id)}
+			} else {
+				v = []string{fmt.Sprintf("verdict %d %d %d %d", w.p, w.c, cb, a)}
+			}
+			if i > 0 && rng.Intn(2) == 0 {
+				w.later = append(w.later, v...)
+			} else {
+				early = append(early, v...)
+			}
+		}
+		ops = append(ops, early...)
+		ws = append(ws, w)
+	}
+	for i, w := range ws {
+		ops = append(ops, fmt.Sprintf("expire %d %d", w.p, w.c))
+		if i+1 < len(ws) {
+			ops = append(ops, ws[i+1].later...)
+		}
+	}
+	return append(ops, "expireall")
+}
+
 // aprShuffle: a uniformly chosen enabled event next, until none is left.
 func aprShuffle(rng *rand.Rand, evs []aprEvt) []string {
 	done := make([]bool, len(evs))
@@ -1130,6 +1214,11 @@ func aprCorpus() [][]string {
 		{"cfg 2 1", "write 0 1 1", "look 1 0 1 0 1", "look 2 0 1 1 1", "commit 2", "commit 1"},
 		{"cfg 2 1", "write 0 1 1", "look 1 0 1 0 1", "look 2 0 1 1 0", "commit 2", "commit 1"},
 		{"cfg 1 1", "write 0 1 1", "look 1 0 1 0 0", "expire 0 1", "commit 1"},
+		// staggered deadlines: the first write times out while the second holds a partial tally; the second's
+		// remaining approval arrives after that timeout and before its own: it must be applied
+		{"cfg 2 1", "write 0 1 1", "wait 70", "write 0 2 1", "verdict 0 2 0 1", "expire 0 1", "verdict 0 2 1 1", "expireall"},
+		{"cfg 3 2", "write 0 1 0", "verdict 0 1 0 1", "wait 60", "write 1 2 1", "verdict 1 2 2 1", "verdict 1 2 0 1", "expire 0 1", "verdict 1 2 1 1", "expireall"},
+		{"cfg 2 1", "write 0 1 1", "verdict 0 1 0 1", "wait 50", "write 0 2 0", "wait 30", "write 0 3 1", "verdict 0 3 1 1", "expire 0 1", "verdict 0 3 0 1", "verdict 0 2 0 0", "expireall"},
 		// a write that timed out leaves its tally behind; the next write must not inherit it
 		{"cfg 2 1", "write 0 1 1", "verdict 0 1 0 1", "expireall", "write 0 2 1", "verdict 0 2 0 1", "verdict 0 2 1 1"},
 	}
@@ -1242,7 +1331,11 @@ func TestApproval(t *testing.T) {
 		rng := h.Rng(1200 + int64(wk))
 		var l [][]string
 		for i := 0; i < hist; i++ {
-			l = append(l, genAprHistory(rng))
+			if i%4 == 3 {
+				l = append(l, genAprStaggered(rng))
+			} else {
+				l = append(l, genAprHistory(rng))
+			}
 		}
 		lists = append(lists, l)
 	}
@@ -1297,6 +1390,7 @@ func TestApproval(t *testing.T) {
 	r.Floor("writes applied", tot.applied, tot.writes, 0.10)
 	r.Floor("writes denied", tot.denied, tot.writes, 0.05)
 	r.Floor("writes timed out", tot.timedOut, tot.writes, 0.10)
+	r.Floor("verdicts in time after the timeout of an earlier write (staggered deadlines)", r.Dist["intime-after-the-timeout-of-another-write"], r.Dist["verdict:intime"]+r.Dist["commit:intime"], 0.01)
 	r.Floor("verdicts in time", r.Dist["verdict:intime"]+r.Dist["commit:intime"], r.Dist["verdict:intime"]+r.Dist["commit:intime"]+r.Dist["verdict:late"]+r.Dist["commit:late"], 0.5)
 }
 
